@@ -288,3 +288,45 @@ def r_drain(ctx, only=None):
 
 
 RULES = [r_task_oblig, r_horizon, r_drain]
+
+
+def r_base_store(ctx):
+    """NamedUIDObject: the assertion list receives exactly what is appended, and is returned whole (the primitives every
+    other rule rests on)"""
+    proj = ctx.project
+    where = "NamedUIDObject.append_z3_assertion"
+    fn = proj.method("NamedUIDObject", "append_z3_assertion")[1]
+    arg = S(fn.args.args[1].arg)
+    for r in runs_of(ctx, Entry("method", cls="NamedUIDObject", name="append_z3_assertion")):
+        apps = [ev for ev in r.events_of("mcall") if ev.data["name"] == "append" and ev.data["recv"] == A(SELF, "_z3_assertions")]
+        ok = len(apps) == 1 and apps[0].data["args"] == (arg,) and not apps[0].loops
+        # the only thing that may stop the append is the duplicate guard, and it must raise (never drop silently)
+        gs = apps[0].guards if apps else ()
+        raises = r.events_of("raise")
+        silent_skip = [g for g in gs if not any(is_app(g, "not") and g[2] in ev.guards for ev in raises)]
+        returns_early = [ev for ev in r.events_of("return")]
+        if ok and not silent_skip and not returns_early:
+            ctx.ok("R-BASE-STORE", f"{where}: the assertion is appended on every non-raising path")
+        else:
+            ctx.violation("R-BASE-STORE", where, "assertion stored unless an exception is raised",
+                          f"appends: {[(show(a.data['args'][0])[:40], [show(g)[:60] for g in a.guards]) for a in apps]}; early returns: "
+                          f"{len(returns_early)}: an assertion can be dropped silently", first_line(proj, "NamedUIDObject"))
+    for r in runs_of(ctx, Entry("method", cls="NamedUIDObject", name="get_z3_assertions")):
+        if r.retval == A(SELF, "_z3_assertions"):
+            ctx.ok("R-BASE-STORE", "NamedUIDObject.get_z3_assertions returns the whole list")
+        else:
+            ctx.violation("R-BASE-STORE", "NamedUIDObject.get_z3_assertions", "whole assertion list returned",
+                          f"returns {show(r.retval)[:120] if isinstance(r.retval, tuple) else r.retval}", first_line(proj, "NamedUIDObject"))
+    fn = proj.method("NamedUIDObject", "append_z3_list_of_assertions")[1]
+    lst = S(fn.args.args[1].arg)
+    for r in runs_of(ctx, Entry("method", cls="NamedUIDObject", name="append_z3_list_of_assertions")):
+        ok = len(r.emissions) == 1 and len(r.emissions[0].loops) == 1 and norm(r.emissions[0].loops[0][3]) == lst \
+            and r.emissions[0].term == ("elem", r.emissions[0].loops[0]) and not r.emissions[0].guards and r.emissions[0].owner == SELF
+        if ok:
+            ctx.ok("R-BASE-STORE", "NamedUIDObject.append_z3_list_of_assertions forwards every element")
+        else:
+            ctx.violation("R-BASE-STORE", "NamedUIDObject.append_z3_list_of_assertions", "every element forwarded",
+                          f"{[e.describe()[:120] for e in r.emissions]}", first_line(proj, "NamedUIDObject"))
+
+
+RULES = [r_task_oblig, r_horizon, r_drain, r_base_store]
